@@ -48,11 +48,13 @@ type AtReturn struct {
 	Ord  int
 	C    Clause
 	Used bool
+	Pre  bool // `before-defers`: evaluated before the deferred calls run (named results read from their cells)
 }
 
 type LoopContract struct {
 	Ordinal    int
 	Exits      []Clause // asserted on every edge leaving the loop
+	Entries    []Clause // asserted on every edge entering the loop from outside (not assumed, not kept)
 	Invariants []Clause
 	Modifies   []Expr // extra heap locations havocked (besides syntactic stores)
 	Decreases  *Clause
@@ -254,6 +256,15 @@ func (cs *ContractSet) LoadContractFile(path, pkgPath string) error {
 				return err
 			}
 			cur.AssumedEnsures = append(cur.AssumedEnsures, c)
+		case "entry":
+			c, err := mkClause()
+			if err != nil {
+				return err
+			}
+			if curLoop == nil {
+				return fmt.Errorf("%s:%d: entry outside loop", path, ln)
+			}
+			curLoop.Entries = append(curLoop.Entries, c)
 		case "exit":
 			c, err := mkClause()
 			if err != nil {
@@ -343,6 +354,11 @@ func (cs *ContractSet) LoadContractFile(path, pkgPath string) error {
 				return fmt.Errorf("%s:%d: at outside func", path, ln)
 			}
 			f := strings.Fields(rest)
+			preDefers := false
+			if len(f) >= 5 && f[0] == "return" && f[2] == "before-defers" && f[3] == "assert" {
+				preDefers = true
+				f = append(f[:2:2], f[3:]...)
+			}
 			if len(f) >= 4 && f[0] == "return" && f[2] == "assert" {
 				// at return <k> assert <expr>: checked at the k-th return statement in source order, with the
 				// function's locals in scope
@@ -355,7 +371,7 @@ func (cs *ContractSet) LoadContractFile(path, pkgPath string) error {
 				if err != nil {
 					return fmt.Errorf("%s:%d: %v", path, ln, err)
 				}
-				cur.AtReturns = append(cur.AtReturns, AtReturn{Ord: ord, C: Clause{E: e, Src: src, File: filepath.Base(path), Line: ln}})
+				cur.AtReturns = append(cur.AtReturns, AtReturn{Ord: ord, Pre: preDefers, C: Clause{E: e, Src: src, File: filepath.Base(path), Line: ln}})
 				break
 			}
 			if len(f) < 4 || f[0] != "call" || (f[2] != "assert" && f[2] != "assert-after" && f[2] != "assume-after") {
